@@ -346,3 +346,46 @@ Section Payload.
     disjoint_map (map fst (client_update_l m upd)).
   Proof. intros H1 H2 H3 H4. rewrite client_update_l_fst. exact (client_update_partition _ _ H1 H2 H3 H4). Qed.
 End Payload.
+
+(* ------------------------------------------------------------------ *)
+(* shardManagerImpl.update holds the write lock over the WHOLE received list, so readers (Get, GetAll) see the map
+   before the update or the map after it: [client_update] is one atomic step and the theorems above are about
+   exactly the maps a reader can observe.  The maps in between -- what a reader would see if the lock were
+   released after every shard of the list -- are not partitions in general: *)
+Fixpoint update_steps (m : list shard) (us : list shard) : list (list shard) :=
+  match us with
+  | [] => []
+  | u :: tl => update_one m u :: update_steps (update_one m u) tl
+  end.
+
+Lemma last_nonempty_default {A} (l : list A) : forall x d d', last (x :: l) d = last (x :: l) d'.
+Proof. induction l as [|y l IH]; intros x d d'; [reflexivity|]. cbn [last] in *. apply (IH y). Qed.
+
+Lemma update_steps_last us : forall m, last (update_steps m us) m = client_update m us.
+Proof.
+  unfold client_update. induction us as [|u tl IH]; intros m; [reflexivity|].
+  cbn [update_steps fold_left]. rewrite <- IH.
+  destruct (update_steps (update_one m u) tl) eqn:E; [reflexivity|].
+  rewrite (last_nonempty_default _ _ m (update_one m u)). cbn [last]. reflexivity.
+Qed.
+
+(* a one-shard namespace re-created with two fresh shards: after the first shard of the list has been applied the
+   old shard is purged and the upper half of the hash space has no shard (Get panics "shard not found") *)
+Theorem stepwise_update_exposes_hole_refuted :
+  exists m upd mid h,
+    partition m /\ partition upd /\ NoDup (map sid upd) /\
+    (forall x u, In x m -> In u upd -> sid x <> sid u) /\
+    In mid (update_steps m upd) /\ h < U32 /\ route mid h = [] /\ ~ partition mid.
+Proof.
+  exists [mkShard 0 0 4294967295],
+         [mkShard 1 0 2147483647; mkShard 2 2147483648 4294967295],
+         [mkShard 1 0 2147483647], 3221225472.
+  split; [apply chainedb_spec; vm_compute; reflexivity|].
+  split; [apply chainedb_spec; vm_compute; reflexivity|].
+  split; [cbn; repeat constructor; cbn; intuition discriminate|].
+  split; [intros x u [<-|[]] [<-|[<-|[]]]; cbn; discriminate|].
+  split; [left; vm_compute; reflexivity|].
+  split; [reflexivity|].
+  split; [vm_compute; reflexivity|].
+  intros H. apply chainedb_spec in H. vm_compute in H. discriminate.
+Qed.
